@@ -22,6 +22,8 @@ def build(pid, P, R, tier, log_dir):
         typed = [ob for ob in tc_props.build("C07", P, R, tier, log_dir) if ob.id in ("X-compound_assign", "X-check_binary")]
         return [mp.XOb("X-accept_implies_lower_assign", "", "", lambda: run_accept_implies_lower(P, R, mp, log_dir)),
                 mp.XOb("X-lower_total", "", "", lambda: run_lower_total(P, R, mp, log_dir))] + typed
+    if pid == "C01":
+        return [mp.XOb("X-lower_visits_all", "", "", lambda: run_lower_visits_all(P, R, mp, log_dir))]
     if pid != "C03":
         return []
     return [mp.XOb("X-check_assign", "", "", lambda: run_check_assign(P, R, mp, log_dir)),
@@ -1247,3 +1249,114 @@ def run_check_visits_all(P, R, mp, log_dir, bound):
     r["deviating_path"] = "; ".join(uniq[:4])[:600]
     broken, texts = verdicts(VISIT_PROGRAMS, log_dir, "c03visit")
     return report(r, log_dir, "visit", broken, texts, f"{len(VISIT_PROGRAMS)} programs with an unknown name inside a guard / condition / bound / argument are rejected as documented")
+
+
+# ---- C01: lowering looks at every part of a node (nothing the programmer wrote is dropped) ----------------------------------------------------------
+def run_lower_visits_all(P, R, mp, log_dir):
+    import scan_props as sp
+    import tc_props
+    t0 = time.time()
+    devs, n_paths, arms_done, skipped, encoded = [], 0, 0, [], set()
+    IDENT = mp.variants(R, "incan_syntax::ast::Expr").index("Ident")
+    for fname, ty in (("lower_expr", sp.AST + "Expr"), ("lower_statement", sp.AST + "Statement")):
+        try:
+            f = tc_props.find_fn(P, fname)
+        except Inconclusive:
+            f = tc_props.find_fn(P, "lower_stmt")
+        td = R.resolve(ty)
+        for k, (vname, _) in enumerate(td.variants):
+            ex = mirx.make_executor(P, R, max_paths=200000)
+            ex.opaque_calls = mirx.slice_opaque
+            ex.model_sequences = True
+            ex.seq_bound = 1
+            ex.recursion_bound = 0
+            ex.tolerate_unsupported = True
+            ex.max_steps = 4000
+            ex.summarize = tc_props.SUMMARIZE + [r"::lower_\w+$", r"HashMap::<.*>::\w+(::<.*>)?$", r"HashSet::<.*>::\w+(::<.*>)?$", r"IrSpan as .*Default>::default$",
+                                                 r"fmt::rt::Argument", r"Arguments::<.*>::new", r"must_use", r"::lookup_var$", r"Clone>::clone$", r"::select_\w+$", r"from_str$", r"PartialEq"]
+            selfv = ex.sym_value("AstLowering", "self")
+            e = ex.sym_value(ty, "e")
+            st0 = symex.State()
+            st0.facts[e.tag().term] = ("eq", k)
+            st0.pc.append(f"(= {e.tag().term} {k})")
+            if vname == "ChainedAssignment":
+                ex.seq_bound = 2
+                st0.facts["len:e.ChainedAssignment.0.1"] = 2
+                ex.loop_bound = 4
+            try:
+                outs = ex.run(f, [selfv, e], state=st0)
+            except Exception as x:
+                skipped.append(f"{fname}::{vname}: {str(x)[:60]}")
+                continue
+            encoded |= set(ex.encoded)
+            oks = [o for o in outs if o.kind == "return" and mirx.show(o.value, ex, o.state).startswith("Result::Ok")]
+            if not oks:
+                skipped.append(f"{fname}::{vname}: no successful path")
+                continue
+            arms_done += 1
+            for o in oks:
+                n_paths += 1
+                fam = [ev for ev in o.state.events if re.search(r"lower_\w+$", ev[0])]
+                asked = " ".join(" ".join(ev[1]) for ev in fam)
+                out, missing = [], []
+                sp.leaves(R, ty, "e", None, o.state.facts, out, missing, 0, asked)
+                for kind, nm in out:
+                    par = nm[:-2] if nm.endswith(".0") else nm
+                    hit = re.search(r"sym<" + re.escape(nm) + r":", asked) or re.search(r"sym<" + re.escape(par) + r":", asked)
+                    if not hit and kind == "body":
+                        ln = o.state.facts.get("len:" + nm)
+                        hit = ln is not None and all(re.search(r"sym<" + re.escape(f"{nm}.e{j}") + r"(\.0)?:", asked) for j in range(ln))
+                    if not hit and vname == "Call" and nm == "e.Call.0.0" and o.state.facts.get("e.Call.0.0!tag") == ("eq", IDENT):
+                        hit = True      # a callee that is a plain name is used by name (function / constructor / builtin), not evaluated
+                    if not hit:
+                        devs.append(f"{fname}, {vname}: the {'statements' if kind == 'body' else 'sub-expression'} `{nm}` "
+                                    f"{'are' if kind == 'body' else 'is'} dropped on a successful path (never lowered)")
+                for nm in missing:
+                    devs.append(f"{fname}, {vname}: `{nm}` (which can contain code) is never examined on a successful path")
+    uniq = list(dict.fromkeys(devs))
+    r = {"id": "X-lower_visits_all", "engine": "E2-X mirsmt",
+         "statement": "lowering, traversal: in every arm of AstLowering::lower_expr and lower_statement, on every successful path, EVERY sub-expression and EVERY statement of "
+                      "the node has been handed to a lowering function - nothing the programmer wrote (and no side effect it has) is silently dropped from the generated program",
+         "bound": "every arm with a successful path (lists of 0..=1; 2 targets for chained assignment); the lowering of parts, scope and registry lookups are uninterpreted answers; "
+                  "a callee that is a plain name is exempt (used by name)",
+         "functions_encoded": sorted(x + " (MIR)" for x in encoded), "paths": n_paths, "arms": arms_done, "not_executed": skipped[:8]}
+    r["wall_s"] = round(time.time() - t0, 2)
+    if n_paths == 0:
+        r.update(status="inconclusive", reason=f"no arm executed: {skipped[:2]}")
+        return r
+    r["vacuity_ok"] = True
+    if not uniq:
+        r.update(status="held", solver=f"{n_paths} successful paths over {arms_done} arms: every code-carrying child is lowered")
+        return r
+    r["deviating_path"] = "; ".join(uniq[:4])[:600]
+    # native: a call with a visible side effect at the suspicious positions must survive into the emitted Rust
+    import kani
+    progs = [("yield_operand", "def g() -> int:\n    println(\"side\")\n    return 1\n\ndef f() -> None:\n    yield g()\n"),
+             ("chained_value", "def g() -> int:\n    println(\"side\")\n    return 1\n\ndef f() -> int:\n    a = b = g()\n    return a\n"),
+             ("slice_bound", "def g() -> int:\n    println(\"side\")\n    return 1\n\ndef f(xs: List[int]) -> List[int]:\n    return xs[g():]\n"),
+             ("dict_value", "def g() -> int:\n    println(\"side\")\n    return 1\n\ndef f() -> int:\n    d = {1: g()}\n    return 0\n"),
+             ("match_guard", "def g() -> bool:\n    println(\"side\")\n    return true\n\ndef f(n: int) -> int:\n    match n:\n        case x if g():\n            return 1\n        case _:\n            return 0\n"),
+             ("fstring_part", "def g() -> int:\n    println(\"side\")\n    return 1\n\ndef f() -> str:\n    return f\"v{g()}\"\n")]
+    texts, broken = [], False
+    os.makedirs(log_dir, exist_ok=True)
+    for prof in ("dev", "release"):
+        binp = kani.build_replay(prof, True, log_dir)
+        for name, src in progs:
+            path = os.path.join(log_dir, f"lowervisit_{name}.incn")
+            open(path, "w").write(src)
+            rc, out, _, to = common.run([binp, "emitrust", path], timeout=120)
+            body = re.search(r"fn f\(.*?\n\}", out, re.S)
+            if "RUST-END" in out and body and "g(" not in body.group(0):
+                broken = True
+                flat = re.sub(r"\s+", " ", body.group(0))[:90]
+                texts.append(f"[{prof}] {name}: the call g() is in the source of f and not in the generated Rust: {flat}")
+    text = "; ".join(texts[:4]) or "the call survives into the generated Rust at all six positions"
+    r["native"] = text
+    if broken:
+        os.makedirs(os.path.join(common.REPLAYS_DIR, "MIRX"), exist_ok=True)
+        rp = os.path.join(common.REPLAYS_DIR, "MIRX", r["id"] + ".replay")
+        open(rp, "w").write(f"mirx c01 lower_visits\n# {r['deviating_path']}\n# {text}\n")
+        r.update(status="violated", replay=rp, counterexample={"path": r["deviating_path"], "native": text})
+    else:
+        r.update(status="inconclusive", reason=f"a part is dropped at the solver level ({r['deviating_path'][:240]}) but the call survives in every replay program")
+    return r
